@@ -427,9 +427,17 @@ func specMv(t *node, src, dst pth) (string, []string) {
 	if !ok {
 		return "notfound", nil
 	}
+	// a directory cannot go into itself or below itself
+	srcPath := append(append([]string(nil), srcDirP...), srcName)
+	if obj.dir && isPrefix(srcPath, dstDirP) {
+		return "intoself", nil
+	}
 	overwrite := false
 	if k, ok := dstDir.kids[dstName]; ok {
 		if k.dir {
+			if k == obj {
+				return "intoself", nil
+			}
 			dstDirP = append(append([]string(nil), dstDirP...), dstName)
 			dstDir, dstName = k, srcName
 		} else {
@@ -712,6 +720,8 @@ func class(err error) string {
 		return "invalid"
 	case strings.HasSuffix(msg, "Already exists"):
 		return "rootexists"
+	case strings.Contains(msg, "into itself"):
+		return "intoself"
 	}
 	return "other:" + strings.ReplaceAll(strings.ReplaceAll(msg, " ", "_"), "\n", "_")
 }
@@ -977,6 +987,10 @@ func exec(c vh.Case, o *vh.Out) {
 			w.mu.Lock()
 			pc := w.pub
 			w.mu.Unlock()
+			if res != "ok" {
+				// nothing was waited for: the republisher may still hold newer values
+				break
+			}
 			pn, perr := w.readCid(pc)
 			if perr != nil {
 				extra = " | pub-unreadable:" + strings.ReplaceAll(perr.Error(), " ", "_")
@@ -1110,6 +1124,11 @@ func exec(c vh.Case, o *vh.Out) {
 		if resClass != "ok" && view.String() != pre.String() {
 			o.Fail("failed-op-changed-tree-"+f[0], "op %d %q returned %s; tree before %v after %v", idx, line, res, pre, view)
 			// keep following the implementation so that one defect is reported once
+			spec = view.clone()
+			continue
+		}
+		if wantClass == "intoself" && res == "ok" {
+			o.Fail("mv-into-own-subtree", "op %d %q returned ok; tree before %v after %v", idx, line, pre, view)
 			spec = view.clone()
 			continue
 		}
